@@ -44,23 +44,25 @@ def _table(fn: ast.AST) -> List[Tuple[str, List[str]]]:
     raise AnalysisError("_detect_columns: column_names table not found")
 
 
-def detect(table: List[Tuple[str, List[str]]], headers: List[str]) -> Tuple[Dict[str, int], Dict[str, bool]]:
-    """The detection algorithm of _detect_columns over an extracted table (its loop shape is checked by R6.1)."""
-    idx: Dict[str, int] = {}
-    neg: Dict[str, bool] = {}
-    for i, col in enumerate(headers):
-        col = col.lower().strip()
-        for key, alts in table:
-            if key in idx:
-                continue
-            for alt in alts:
-                if col.startswith(alt) or col.startswith("-" + alt) or col.startswith("−" + alt):
-                    idx[key] = i
-                    neg[key] = col[0] in ("-", "−")
-                    break
-            if key in idx:
-                break
-    return idx, neg
+class _Frame:
+    """Stub of the only thing _detect_columns reads from a DataFrame: its column labels."""
+
+    def __init__(self, columns):
+        self.columns = list(columns)
+
+
+_DC = {}
+
+
+def detect(table, headers: List[str]):
+    """Interpret the repository's _detect_columns (its AST, via sa.miniinterp) on a frame with these headers.
+    Returns (indices, negatives) or the name of the exception it raises."""
+    from ..miniinterp import InterpRaise, Mini
+    try:
+        r = Mini().call_function(_DC["fn"], {"df": _Frame(headers)})
+    except InterpRaise as e:
+        return e.kind, {}
+    return r[0], r[1]
 
 
 def check(ctx: Ctx) -> None:
@@ -75,6 +77,7 @@ def check(ctx: Ctx) -> None:
 
     # ---------------- R6.1 ---------------------------------------------------------
     dc = model.fi(DS, "_detect_columns")
+    _DC["fn"] = dc.node
     table = _table(dc.node)
     ctx.instance("R6.1", f"table order {[k for k, _ in table]}")
     if sorted(k for k, _ in table) == sorted(KEYS):
@@ -82,40 +85,35 @@ def check(ctx: Ctx) -> None:
     else:
         ctx.violation("R6.1", "_detect_columns:keys", DS, dc.node, f"the alias table must cover exactly {KEYS}")
         return
-    # loop shape
-    t = norm(dc.node)
-    ctx.instance("R6.1", "detection loop: lower+strip, table order, skip identified, prefix with optional sign, sign from first character")
-    cond = [n for n in walk_ordered(dc.node) if isinstance(n, ast.If) and isinstance(n.test, ast.BoolOp) and isinstance(n.test.op, ast.Or)
-            and all(isinstance(v, ast.Call) and norm(v.func) == "col.startswith" for v in n.test.values)]
-    shape = len(cond) == 1 and sorted(norm(v.args[0]) for v in cond[0].test.values) == sorted(["alt", "f'-{alt}'", "f'−{alt}'"]) \
-        and "col = col.lower().strip()" in t and "for i, col in enumerate(df.columns)" in t and "for key, alternatives in column_names.items()" in t \
-        and "column_indices[key] = i" in [norm(s) for s in cond[0].body] and "negative_columns[key] = col[0] in ('-', '−')" in [norm(s) for s in cond[0].body] \
-        and isinstance(cond[0].body[-1], ast.Break)
-    skips = [n for n in walk_ordered(dc.node) if isinstance(n, ast.If) and norm(n.test) == "key in column_indices"]
-    shape = shape and len(skips) == 2 and any(isinstance(s.body[-1], ast.Continue) for s in skips) and any(isinstance(s.body[-1], ast.Break) for s in skips)
-    if shape:
-        ctx.ok()
-    else:
-        ctx.violation("R6.1", "_detect_columns:loop", DS, dc.node, "the detection loop is not first-match-by-prefix over the table in order (lower-cased, stripped header; optional '-'/'−'; identified quantities skipped)")
-        return
-    # shadowing
-    order = [k for k, _ in table]
+    # every alias, in either case, with either sign marker and a unit suffix, as the first and as the last column
+    canon = {k: alts[0] for k, alts in table}
     n_alias = 0
-    for ki, (key, alts) in enumerate(table):
+    n_interp = 0
+    for key, alts in table:
         for alt in alts:
             n_alias += 1
-            ctx.instance("R6.1", f"alias {alt!r} → {key}")
-            if alt != alt.lower().strip() or not alt:
-                ctx.violation("R6.1", f"alias:{key}:{alt}:form", DS, dc.node, f"the alias {alt!r} can never match a lower-cased, stripped header")
-                continue
-            shadow = [(k2, a2) for k2, alts2 in table[:ki] for a2 in alts2 if alt.startswith(a2)]
-            if shadow:
-                ctx.violation("R6.1", f"alias:{key}:{alt}:shadowed", DS, dc.node,
-                              f"a column headed {alt!r} (the documented alias of {key}) is detected as {shadow[0][0]} because its alternative {shadow[0][1]!r} is a prefix and {shadow[0][0]} comes first in the table")
-            else:
+            ctx.instance("R6.1", f"alias {alt!r} → {key} (both cases, signs '', '-', '−', first and last column)")
+            bad = None
+            for case in (str.lower, str.upper):
+                for sign in ("", "-", "−"):
+                    for pos in ("first", "last"):
+                        h = sign + case(alt) + " (unit)"
+                        others = [canon[k] for k in KEYS if k != key]
+                        headers = [h] + others if pos == "first" else others + [h]
+                        n_interp += 1
+                        idx, neg = detect(table, headers)
+                        want_i = 0 if pos == "first" else 4
+                        if not isinstance(idx, dict) or idx.get(key) != want_i or neg.get(key) is not (sign != ""):
+                            bad = bad or (h, pos, idx, neg)
+            if bad is None:
                 ctx.ok()
+            else:
+                h, pos, idx, neg = bad
+                ctx.violation("R6.1", f"alias:{key}:{alt}:shadowed", DS, dc.node,
+                              f"a column headed {h!r} ({pos} column; a documented spelling of {key}) is detected as {idx} with signs {neg}: it is shadowed by another quantity's alternative or its sign marker is lost")
     if n_alias < 25:
         raise AnalysisError(f"R6.1: only {n_alias} aliases found (floor 25)")
+    ctx.note(f"_detect_columns interpreted on {n_interp} header rows")
     # documented aliases
     dd = model.fi(DS, "dataframe_to_data_sets")
     doc = ast.get_docstring(dd.node) or ""
@@ -338,15 +336,52 @@ def check(ctx: Ctx) -> None:
                           f"_split_sweeps reads {norm(sub)} although its caller only guarantees {guaranteed} point(s): a table with a single row raises IndexError instead of giving a one-point spectrum")
     if n_idx < 1:
         raise AnalysisError("R6.3: no constant index on the input lists found in _split_sweeps")
-    t = norm(ss.node)
-    ctx.instance("R6.3", "one cut index for all three lists; complex(real, imaginary); remainder re-examined")
-    good = "array(frequency[:i])" in t and "zip(real[:i], imaginary[:i])" in t and "lambda _: complex(*_)" in t \
-        and "frequency = frequency[i:]" in t and "real = real[i:]" in t and "imaginary = imaginary[i:]" in t and "while frequency" in t
-    if good:
+    # exhaustive interpretation over the order domain: _split_sweeps touches the frequencies only through comparisons, so its
+    # behaviour on n points is determined by their ordering; all orderings of 1..6 distinct values are enumerated
+    from itertools import permutations
+    from ..miniinterp import InterpRaise, Mini
+
+    def spec(p):
+        if len(p) == 1:
+            return [list(p)]
+        desc = p[0] > p[1]
+        runs, cur = [], [p[0]]
+        for a_, b_ in zip(p, p[1:]):
+            if (a_ > b_) == desc:
+                cur.append(b_)
+            else:
+                runs.append(cur)
+                cur = [b_]
+        runs.append(cur)
+        return runs
+    stubs = {"array": lambda x, *a, **k: list(x), "DataSet": lambda f, Z, **k: ("DataSet", list(f), list(Z)), "complex": lambda re_, im_: (re_, im_)}
+    n_worlds = 0
+    witness = None
+    for n in range(1, 7):
+        for p in permutations(range(n)):
+            n_worlds += 1
+            fr = [float(10 ** x) for x in p]
+            re_ = [("re", i) for i in range(n)]
+            im_ = [("im", i) for i in range(n)]
+            try:
+                out = Mini(stubs).call_function(ss.node, {"frequency": list(fr), "real": list(re_), "imaginary": list(im_), "path": "p", "label": "l"})
+                got = [(d[1], d[2]) for d in out]
+            except InterpRaise as e:
+                got = e.kind
+            want, k = [], 0
+            for run in spec(p):
+                want.append(([float(10 ** x) for x in run], [(("re", k + j), ("im", k + j)) for j in range(len(run))]))
+                k += len(run)
+            if got != want and witness is None:
+                same_f = not isinstance(got, str) and [g[0] for g in got] == [w[0] for w in want]
+                witness = (p, got if isinstance(got, str) else ([g[1] for g in got] if same_f else [g[0] for g in got]), [w[1] for w in want] if same_f else [w[0] for w in want])
+    ctx.instance("R6.3", f"_split_sweeps interpreted on all {n_worlds} orderings of 1..6 points: one data set per maximal run in the direction of the first two points, values aligned")
+    if witness is None:
         ctx.ok()
     else:
-        ctx.violation("R6.3", "_split_sweeps:cuts", DS, ss.node, "each sweep must take frequency[:i] with complex(real[:i], imaginary[:i]) and continue with the [i:] remainders of all three lists")
-
+        p, got, want = witness
+        ctx.violation("R6.3", "_split_sweeps:partition", DS, ss.node,
+                      f"for frequencies ordered like {[10 ** x for x in p]} _split_sweeps gives {got} instead of one data set per sweep {want}")
     # ---------------- R6.5 ---------------------------------------------------------
     gp = model.fi(DATA, "get_parsers")
     d = [n for n in walk_ordered(gp.node) if isinstance(n, ast.Dict) and len(n.keys) >= 10]
@@ -389,12 +424,46 @@ def check(ctx: Ctx) -> None:
         ctx.violation("R6.5", "parse_data:csv-fallback", DATA, pd_.node, "a .csv that cannot be read with the defaults must be re-read with sep=None and decimal=','")
     for mod, fn in ((f"{FMT}.csv", "parse_csv"), (f"{FMT}.z", "parse_z")):
         fi = model.fi(mod, fn)
-        seps = [n for n in walk_ordered(fi.node) if isinstance(n, (ast.Assign, ast.AnnAssign)) and n.value is not None and norm(n.targets[0] if isinstance(n, ast.Assign) else n.target) == "separators"]
-        ctx.instance("R6.5", f"{fn}: one-column frames are re-read with tab, space, semicolon, comma")
-        t = norm(fi.node)
-        if len(seps) == 1 and isinstance(seps[0].value, ast.List) and sorted(e.value for e in seps[0].value.elts) == sorted(["\t", " ", ";", ","]) \
-                and "while len(df.columns) == 1" in t and "kwargs['sep'] = separators.pop(0)" in t and "return dataframe_to_data_sets(df, path=path)" in t:
+        ctx.instance("R6.5", f"{fn}: one-column frames are re-read with tab, space, semicolon, comma from a list that is fresh for every call")
+        pops = [c for c in calls_in(fi.node) if isinstance(c.func, ast.Attribute) and c.func.attr == "pop" and isinstance(parent(c), ast.Assign) and norm(parent(c).targets[0]) == "kwargs['sep']"]
+        loops = [n for n in walk_ordered(fi.node) if isinstance(n, ast.While) and norm(n.test) == "len(df.columns) == 1"]
+        if len(pops) != 1 or len(loops) != 1 or not any(x is pops[0] for x in ast.walk(loops[0])):
+            ctx.violation("R6.5", f"{fn}:separators", mod, fi.node, f"{fn} must retry other separators while the frame has a single column")
+            continue
+        V = norm(pops[0].func.value)
+        local = [n for n in walk_ordered(fi.node) if isinstance(n, (ast.Assign, ast.AnnAssign)) and n.value is not None and norm(n.targets[0] if isinstance(n, ast.Assign) else n.target) == V]
+        modlevel = {norm(n.targets[0] if isinstance(n, ast.Assign) else n.target): n.value for n in ctx.repo.modules[mod].tree.body
+                    if isinstance(n, (ast.Assign, ast.AnnAssign)) and n.value is not None}
+        elems = None
+        why = ""
+        if len(local) == 1:
+            v = local[0].value
+            if isinstance(v, ast.List):
+                elems = [e.value for e in v.elts if isinstance(e, ast.Constant)]
+            else:
+                src = None
+                if isinstance(v, ast.Call) and norm(v.func) == "list" and v.args:
+                    src = norm(v.args[0])
+                elif isinstance(v, ast.Call) and isinstance(v.func, ast.Attribute) and v.func.attr == "copy":
+                    src = norm(v.func.value)
+                elif isinstance(v, ast.Subscript) and norm(v.slice) == ":":
+                    src = norm(v.value)
+                if src in modlevel and isinstance(modlevel[src], (ast.List, ast.Tuple)):
+                    elems = [e.value for e in modlevel[src].elts if isinstance(e, ast.Constant)]
+                else:
+                    why = f"{V} is bound from {norm(v)[:60]}, not from a fresh list"
+        elif not local and V in modlevel:
+            why = f"{V} is a module-level list that {fn} consumes with pop(): after a few files in one process it is empty and the next file fails"
+        else:
+            why = f"{V} has {len(local)} bindings"
+        if elems is not None and set(elems) >= {"\t", " ", ";", ","} and norm(pops[0].args[0]) == "0" if pops[0].args else False:
             ctx.ok()
         else:
-            ctx.violation("R6.5", f"{fn}:separators", mod, fi.node, f"{fn} must retry tab, space, semicolon and comma while the frame has a single column and hand the frame to dataframe_to_data_sets")
+            ctx.violation("R6.5", f"{fn}:separators", mod, pops[0], f"{fn}: the fallback separators must be tab, space, semicolon and comma taken from a list created for this call ({why or elems})")
+        rets = [n for n in walk_ordered(fi.node) if isinstance(n, ast.Return)]
+        if not (len(rets) == 1 and norm(rets[0].value) == "dataframe_to_data_sets(df, path=path)"):
+            ctx.violation("R6.5", f"{fn}:handover", mod, fi.node, f"{fn} must hand the frame it read to dataframe_to_data_sets")
+    from ..effects import stateless_rule
+    fmods = tuple(sorted(m for m in ctx.repo.modules if m.startswith(FMT + ".") and m.split(".")[-1] in ("csv", "mpt", "p00", "dfr", "i2b", "dta", "z", "helpers")))
+    stateless_rule(ctx, model, "R6.5", fmods + (DATA,), 10, "parsing one file changes what the next file in the same process is parsed with")
     ctx.sample({"aliases": n_alias, "documented": n_doc, "formats": n_fmt})
